@@ -642,7 +642,18 @@ fn text_value_from_open_type2<'a>(
 
 /// Unwrap array, map or tag type rule from ident
 pub fn unwrap_rule_from_ident<'a>(cddl: &'a CDDL, ident: &Identifier) -> Option<&'a Rule<'a>> {
-  cddl.rules.iter().find_map(|r| match r {
+  unwrap_rule_from_open_ident(cddl, ident, &mut Vec::new())
+}
+
+/// `open` holds the indexes of the rules already followed: a rule that is
+/// reached again yields nothing, so cyclic rule references (`a = b`, `b = a`)
+/// terminate.
+fn unwrap_rule_from_open_ident<'a>(
+  cddl: &'a CDDL,
+  ident: &Identifier,
+  open: &mut Vec<usize>,
+) -> Option<&'a Rule<'a>> {
+  cddl.rules.iter().enumerate().find_map(|(idx, r)| match r {
     Rule::Type {
       rule:
         TypeRule {
@@ -652,7 +663,7 @@ pub fn unwrap_rule_from_ident<'a>(cddl: &'a CDDL, ident: &Identifier) -> Option<
           ..
         },
       ..
-    } if name == ident && !is_type_choice_alternate => {
+    } if name == ident && !is_type_choice_alternate && !open.contains(&idx) => {
       let match_fn = |tc: &TypeChoice| {
         matches!(
           tc.type1.type2,
@@ -674,7 +685,10 @@ pub fn unwrap_rule_from_ident<'a>(cddl: &'a CDDL, ident: &Identifier) -> Option<
           None
         }
       }) {
-        unwrap_rule_from_ident(cddl, ident)
+        open.push(idx);
+        let unwrapped = unwrap_rule_from_open_ident(cddl, ident, open);
+        open.pop();
+        unwrapped
       } else {
         None
       }
